@@ -35,6 +35,20 @@ func paramsOf(op map[string]any) []any {
 	return ps
 }
 
+// StableRuleEdits are the rule edits after which the library's messages do not depend on map iteration order:
+// a circular ancestry is named by whichever member of the cycle is met first, and of two unresolvable references the
+// expander of go-openapi/spec quotes whichever it meets first (both belong to C10, which knows how to compare them).
+// Checks that compare messages between two executions for another reason (recycling, concurrency) draw from these.
+func StableRuleEdits() []string {
+	var out []string
+	for _, e := range RuleEdits {
+		if e != "circularAncestry" && e != "unresolvableFileRefs" {
+			out = append(out, e)
+		}
+	}
+	return out
+}
+
 func pickOp(t *rapid.T, info *SpecInfo, pred func(OpInfo) bool) (OpInfo, bool) {
 	var c []OpInfo
 	for _, o := range info.Ops {
